@@ -809,7 +809,9 @@ Definition run_unfixed (i : ops) : outs := run_with (step false) i.
     - unread data [<= receive_window + shrink debt]; per stream [<= stream_receive_window];
     - credit: [local_max_data <= W0 + expansions + consumed], every MAX_STREAM_DATA value
       [<= bytes returned by reads + window], MAX_STREAMS [<= initial + streams seen fully closed],
-      advertised values never decrease. *)
+      advertised values never decrease;
+    - stream credit: [max_remote] = initial + number of remotely initiated streams seen with both
+      halves gone (exactly one credit per terminated stream, none before). *)
 Definition NG : nat := 22.
 Definition NS : nat := 14.
 Definition zn (k : nat) (l : list Z) : Z := nth k l 0.
@@ -891,8 +893,8 @@ Definition check_global (lg : ledger) : bool :=
   && (zn 0 g =? sum_snd (lg_es lg))
   && (zn 2 g =? lg_w lg)
   && (zn 4 g =? lg_md lg) && (zn 7 g =? fst (lg_ms lg)) && (zn 8 g =? snd (lg_ms lg))
-  && (zn 5 g <=? fst (lg_mr0 lg) + closed_count lg 0 (lg_S lg))
-  && (zn 6 g <=? snd (lg_mr0 lg) + closed_count lg 1 (lg_S lg)).
+  && (zn 5 g =? fst (lg_mr0 lg) + closed_count lg 0 (lg_S lg))
+  && (zn 6 g =? snd (lg_mr0 lg) + closed_count lg 1 (lg_S lg)).
 
 Definition check_stream (lg : ledger) (id : Z) (s : list Z) : bool :=
   if zn 0 s =? 3 then
@@ -1108,8 +1110,8 @@ Definition check_global_parts (lg : ledger) : list bool :=
    (zn 0 g =? sum_snd (lg_es lg));
    (zn 2 g =? lg_w lg);
    (zn 4 g =? lg_md lg); (zn 7 g =? fst (lg_ms lg)); (zn 8 g =? snd (lg_ms lg));
-   (zn 5 g <=? fst (lg_mr0 lg) + closed_count lg 0 (lg_S lg));
-   (zn 6 g <=? snd (lg_mr0 lg) + closed_count lg 1 (lg_S lg))].
+   (zn 5 g =? fst (lg_mr0 lg) + closed_count lg 0 (lg_S lg));
+   (zn 6 g =? snd (lg_mr0 lg) + closed_count lg 1 (lg_S lg))].
 Fixpoint ledger_after (lg : ledger) (i : ops) (o : outs) : ledger :=
   match i, o with
   | op :: i', out :: o' => ledger_after (fst (oracle_step lg op out)) i' o'
